@@ -97,7 +97,7 @@ func (e *Env) spine() *spine {
 			} else {
 				sp.declRename = append(sp.declRename, n)
 			}
-		case isWriteFile(n):
+		case isWriteFile(n) || n.IsCallTo("os.OpenFile", "os.Create"):
 			if isCallSym(e.argSym(n, 0), fnAuditPath) {
 				sp.auditWrite = append(sp.auditWrite, n)
 			}
